@@ -144,6 +144,10 @@ func sameType(x, y types.Type) bool {
 
 type unsupported struct{ msg string }
 
+// uncomparable: == on interface values whose dynamic type is a slice, map or
+// function (a run-time panic in Go).
+type uncomparable struct{ t types.Type }
+
 func unsupportedf(format string, args ...interface{}) unsupported {
 	return unsupported{fmt.Sprintf(format, args...)}
 }
@@ -217,6 +221,10 @@ func equalsConcrete(t types.Type, x, y value) bool {
 		return types.Identical(x.t, y.(rtype).t)
 	case unsafe.Pointer:
 		return x == y.(unsafe.Pointer)
+	}
+	switch x.(type) {
+	case []value, *omap, *ssa.Function, *closure:
+		panic(uncomparable{t})
 	}
 	panic(unsupportedf("comparison of %T with %T at type %s", x, y, t))
 }
